@@ -597,6 +597,10 @@ example (ops : List Op) (s : FState) :
   forwarding_transparent_histories (frozen_lawful _) 3 ops s
 
 
+/-- §10.5.13 [[Construct]]: the trap result is accepted iff it is an object -/
+theorem construct_eq_spec (v : Val) : mechConstruct v = specConstruct v := by
+  cases v <;> rfl
+
 /-! ## own-keys: completeness and soundness as corollaries of `ownKeys_eq_spec` -/
 
 theorem keysOfItems_map_key (ks : List Key) : keysOfItems (ks.map KItem.key) = some ks := by
